@@ -47,7 +47,7 @@ Theorem tree_height_is_height fx c m : tree_height (ext_of_gen fx c m) = ms_heig
 Proof.
   induction m using TheoremA.ms_ind';
     try (cbn [ext_of_gen ms_height]; reflexivity);
-    try (cbn [ext_of_gen ms_height]; unfold ext_pk_k, ext_pk_h;
+    try (cbn [ext_of_gen ms_height]; unfold ext_pk_k, ext_pk_h_none, ext_pk_h;
          match goal with |- context [key_sig_bytes ?a ?b ?d] => destruct (key_sig_bytes a b d) end; reflexivity);
     try (cbn [ext_of_gen ms_height];
          unfold ext_cast_alt, ext_cast_swap, ext_cast_check, ext_cast_dupif, ext_cast_verify, ext_cast_nonzero,
@@ -257,7 +257,7 @@ Proof.
     - apply step_flags; assumption.
     - rewrite (step_comb 1 _ _ _ _ Ha1 Hb1), Ha2, Hb2. intuition lia. }
   induction m using TheoremA.ms_ind';
-    try (apply Hleaf; [cbn [ext_of_gen]; unfold ext_pk_k, ext_pk_h;
+    try (apply Hleaf; [cbn [ext_of_gen]; unfold ext_pk_k, ext_pk_h_none, ext_pk_h;
                        try match goal with |- context [key_sig_bytes ?a ?b ?d] => destruct (key_sig_bytes a b d) end;
                        reflexivity | reflexivity | reflexivity]);
     try (apply (Hun m); [reflexivity | reflexivity | reflexivity | assumption]).
